@@ -41,7 +41,9 @@ vvars == <<comps, svals, phase, order, out, mw, fault, verdict>>
 ---------------------------------------------------------------------------
 (* Option sites.  A key site is applicable where the key is present in the rendered component. *)
 KeySites == {"command", "references", "workflowAttributes", "arguments", "executable", "replicate", "aggregate", "backend",
-             "alien"}      \* "alien": a key that resembles no known key; the others are misspellings of known keys
+             "alien",      \* "alien": a key that resembles no known key; the others are misspellings of known keys
+             "toplevel",   \* a misspelled key of the FlowIR document itself (`enviroments:`), next to `components:`
+             "ovrkey"}     \* a misspelled key inside the component's override for a platform that is NOT the one loaded
 (* Typed option sites, by declared type (FlowIR.type_flowir_component), and the classes of values a package may give.   *)
 IntSites == {"numberProcesses", "numberThreads", "ranksPerNode", "threadsPerCore", "gpus", "maxRestarts", "repeatRetries",
              "gracePeriod", "replicate"}
